@@ -10,6 +10,32 @@ let hexn (x : n) : string = Util.hex_of_n (Obj.magic x)
 let n_hex (s : string) : n = Obj.magic (Util.n_of_hex s)
 let nat_ (k : int) : nat = Obj.magic (Util.nat_of_int k)
 let int_nat (k : nat) : int = Util.int_of_nat (Obj.magic k)
+(* Byte counts, counters and size records are carried as the extracted arbitrary-precision N, never as OCaml ints:
+   with content id = node id a value overwrites the size record and the counter reloaded from it can be any uint64. *)
+let ten : n = n_ 10
+let is_digits s = s <> "" && (let ok = ref true in String.iter (fun c -> if c < '0' || c > '9' then ok := false) s; !ok)
+let n_of_dec_opt (s : string) : n option =
+  if not (is_digits s) then None else begin
+    let r = ref (n_ 0) in
+    String.iter (fun c -> r := N.add (N.mul !r ten) (n_ (Char.code c - 48))) s;
+    Some !r
+  end
+let dec_of_n (x : n) : string =
+  let rec go x acc =
+    let (q, r) = N.div_eucl x ten in
+    let acc = String.make 1 (Char.chr (48 + int_n r)) ^ acc in
+    if N.eqb q (n_ 0) then acc else go q acc in
+  go x ""
+let zero : n = n_ 0
+let ( +: ) = N.add
+let ( *: ) = N.mul
+let ( >: ) a c = N.ltb c a
+let ( <: ) a c = N.ltb a c
+let ( <=: ) a c = N.leb a c
+let bytes_of_n8 (k : n) : int list =          (* 8-byte big-endian (k < 2^64) *)
+  let rec go k i acc = if i = 0 then acc else let (q, r) = N.div_eucl k (n_ 256) in go q (i - 1) (int_n r :: acc) in
+  go k 8 []
+let rec take_l n l = if n = 0 then [] else match l with [] -> [] | x :: t -> x :: take_l (n - 1) t
 let starts s p = String.length s >= String.length p && String.sub s 0 (String.length p) = p
 let split c s = String.split_on_char c s
 
@@ -17,10 +43,10 @@ let split c s = String.split_on_char c s
 type v = Short of int list | Long of int * int           (* Long (vid, len): 8-byte BE vid then a PRNG stream *)
 let vlen_i = function Short l -> List.length l | Long (_, n) -> n
 let vlen (x : v) : n = n_ (vlen_i x)
-let be8 l = let rec go acc k l = if k = 0 then acc else match l with x :: t -> go (acc * 256 + x) (k - 1) t | [] -> acc in go 0 8 l
+let be8 (l : int list) : n = be_to_N (Obj.magic (take_l 8 l))       (* binary.BigEndian.Uint64 of the first 8 bytes *)
 let vhead8 (x : v) : n res = match x with
   | Long (vid, _) -> Ok (n_ vid)
-  | Short l -> if List.length l < 8 then Panic else Ok (n_ (be8 l))
+  | Short l -> if List.length l < 8 then Panic else Ok (be8 l)
 let parse_val s =
   if s.[0] = 's' then Short (Util.bytes_of_hex (String.sub s 1 (String.length s - 1)))
   else match split '.' (String.sub s 1 (String.length s - 1)) with
@@ -29,14 +55,13 @@ let parse_val s =
 let show_val = function
   | Short l -> "s" ^ Util.hex_of_bytes l
   | Long (vid, n) -> Printf.sprintf "l%d.%d" vid n
-let be8_bytes k = List.init 8 (fun i -> (k lsr (8 * (7 - i))) land 255)
 let show_dbval = function
   | Item x -> show_val x
-  | SizeRec k -> "s" ^ Util.hex_of_bytes (be8_bytes (int_n k))
+  | SizeRec k -> "s" ^ Util.hex_of_bytes (bytes_of_n8 k)
 let show_rec = function
   | None -> "none"
-  | Some (SizeRec k) -> string_of_int (int_n k)
-  | Some (Item (Short l)) when List.length l = 8 && List.hd l < 0x40 -> string_of_int (be8 l)
+  | Some (SizeRec k) -> dec_of_n k
+  | Some (Item (Short l)) when List.length l = 8 -> dec_of_n (be8 l)
   | Some (Item x) -> "x" ^ show_val x
 
 (* ---- ops *)
@@ -62,12 +87,12 @@ let show_get y id = match get y.mem (b id) with
   | Ok None -> "nf" | Ok (Some x) -> show_dbval x | Err _ -> "err" | Panic -> "panic"
 let observe res y ids =
   let g = match ids with [] -> "." | _ -> String.concat "+" (List.map (show_get y) ids) in
-  Printf.sprintf "%s,%s,%d,%s,%d,%s" res (hexn y.mem.rad) (int_n y.mem.cnt) (show_rec y.mem.sdb.rec0) (int_n (held vlen y.mem)) g
+  Printf.sprintf "%s,%s,%s,%s,%s,%s" res (hexn y.mem.rad) (dec_of_n y.mem.cnt) (show_rec y.mem.sdb.rec0) (dec_of_n (held vlen y.mem)) g
 
 (* returns (steps, Some k if the model panics/errors at op k) *)
-let model_run dec capmb node ops =
+let model_run dec (capmb : n) node ops =
   let ids = pool ops in
-  let y = ref (init (n_ capmb) k_contentDeletionPPM (b node)) in
+  let y = ref (init capmb k_contentDeletionPPM (b node)) in
   let steps = ref [] and stop = ref None in
   (try List.iteri (fun i o ->
     let res, nxt = match o with
@@ -94,26 +119,36 @@ let model_string (steps, stop) impl =
     then impl else Printf.sprintf "panic after=%d" i
 
 (* ---- implementation observations *)
-type obs = { res : string; radius : n; rads : string; cnt : int; recs : string; held : int; gets : string list }
+type obs = { res : string; radius : n; rads : string; cnt : n; recs : string; recn : n option; held : n; gets : string list }
+let is_hex s = s <> "" && (let ok = ref true in String.iter (fun c -> if not ((c >= '0' && c <= '9') || (c >= 'a' && c <= 'f')) then ok := false) s; !ok)
+(* None when the observation is not of the expected shape (reported as such, never an exception) *)
 let parse_obs impl : obs list option =
   if not (starts impl "ok ") then None else
   let body = String.sub impl 3 (String.length impl - 3) in
   if body = "." then Some [] else
-  Some (List.map (fun s -> match split ',' s with
-    | [res; rad; cnt; recs; held; gets] ->
-      { res; radius = n_hex rad; rads = rad; cnt = int_of_string cnt; recs; held = int_of_string held;
-        gets = if gets = "." then [] else split '+' gets }
-    | _ -> failwith "obs") (split ';' body))
+  let steps = List.map (fun s -> match split ',' s with
+    | [res; rad; cnt; recs; held; gets] when is_hex rad ->
+      (match n_of_dec_opt cnt, n_of_dec_opt held with
+       | Some c, Some h ->
+         Some { res; radius = n_hex rad; rads = rad; cnt = c; recs; recn = n_of_dec_opt recs; held = h;
+                gets = if gets = "." then [] else split '+' gets }
+       | _ -> None)
+    | _ -> None) (split ';' body) in
+  if List.mem None steps then None else Some (List.map (function Some x -> x | None -> assert false) steps)
 
 let key_of node id = match xor_key (b id) (b node) with Ok k -> k | _ -> failwith "key"
 let valid_id node id = List.length id = 32 && id <> node
 let n_le a c = N.leb a c
 let n_lt a c = N.ltb a c
 
-let rec_int o = try int_of_string o.recs with _ -> -1
+(* the size record as a number; a record that is not an 8-byte counter (a value written under the SizeKey) counts as
+   absent for the monitors - those only speak about histories without the node id itself *)
+let rec_n (o : obs) : n = match o.recn with Some k -> k | None -> zero
+let has_rec (o : obs) = o.recn <> None
+let sd = dec_of_n
 
 (* the observation "before" the first op of a history: a new store *)
-let obs0 nids = { res = "-"; radius = mAXD; rads = hexn mAXD; cnt = 0; recs = "none"; held = 0; gets = List.init nids (fun _ -> "nf") }
+let obs0 nids = { res = "-"; radius = mAXD; rads = hexn mAXD; cnt = zero; recs = "none"; recn = None; held = zero; gets = List.init nids (fun _ -> "nf") }
 
 (* iterate over the steps with the previous observation *)
 let fold_steps ops (obs : obs list) nids f =
@@ -121,18 +156,18 @@ let fold_steps ops (obs : obs list) nids f =
   List.iteri (fun i (o, ob) -> f i o !prev ob; prev := ob) (List.combine ops obs)
 
 (* ---------------- C04 monitors *)
-let c04_monitors capmb node ops (obs : obs list) : string list =
+let c04_monitors (capmb : n) node ops (obs : obs list) : string list =
   let ids = pool ops in
-  let cap = capmb * 1000000 in
+  let cap = capmb *: k_bytesPerMB in
   let fails = ref [] in
   let fail k d = fails := (k ^ " " ^ d) :: !fails in
   let putvals = Hashtbl.create 16 in       (* id -> values put so far *)
   fold_steps ops obs (List.length ids) (fun i o prev ob ->
-    let over_put id x = prev.cnt + List.length id + vlen_i x > cap in
+    let over_put id x = (prev.cnt +: n_ (List.length id + vlen_i x)) >: cap in
     (match o with P (id, x) -> Hashtbl.add putvals id (show_val x) | _ -> ());
     (match o with
      | P (id, x) when ob.res = "refused" ->
-       if (prev.rads, prev.cnt, prev.recs, prev.held, prev.gets) <> (ob.rads, ob.cnt, ob.recs, ob.held, ob.gets)
+       if (prev.rads, sd prev.cnt, prev.recs, sd prev.held, prev.gets) <> (ob.rads, sd ob.cnt, ob.recs, sd ob.held, ob.gets)
        then fail "refused-put-changed-state" (Printf.sprintf "step=%d" i)
      | _ -> ());
     List.iteri (fun j id ->
@@ -151,7 +186,7 @@ let c04_monitors capmb node ops (obs : obs list) : string list =
          | G _ -> if g <> g0 then fail "get-changed-by-get" (Printf.sprintf "step=%d id#%d %s->%s" i j g0 g)
          | R | K _ ->
            if g <> g0 && g <> "nf" then fail "get-changed-by-reopen" (Printf.sprintf "step=%d id#%d %s->%s" i j g0 g);
-           if g <> g0 && g = "nf" && not (rec_int prev > cap) then fail "item-lost-by-reopen-without-prune" (Printf.sprintf "step=%d id#%d" i j))
+           if g <> g0 && g = "nf" && not (rec_n prev >: cap) then fail "item-lost-by-reopen-without-prune" (Printf.sprintf "step=%d id#%d" i j))
       end) ids;
     (match o with
      | G id when valid_id node id ->
@@ -161,22 +196,23 @@ let c04_monitors capmb node ops (obs : obs list) : string list =
   List.rev !fails
 
 (* ---------------- C05 monitors (sequential histories) *)
-let c05_monitors capmb node ops (obs : obs list) : string list =
+let c05_monitors (capmb : n) node ops (obs : obs list) : string list =
   let ids = pool ops in
-  let cap = capmb * 1000000 in
-  let expect_ = capmb * int_n k_contentDeletionPPM in
+  let cap = capmb *: k_bytesPerMB in
+  let expect_ = capmb *: k_contentDeletionPPM in
   let fails = ref [] in
   let fail k d = fails := (k ^ " " ^ d) :: !fails in
   let all_valid = List.for_all (valid_id node) ids in
-  let small = List.for_all (function P (id, x) -> List.length id + vlen_i x <= expect_ | _ -> true) ops in
+  let small = List.for_all (function P (id, x) -> n_ (List.length id + vlen_i x) <=: expect_ | _ -> true) ops in
   let sizes = Hashtbl.create 16 in         (* id -> bytes of the entry currently believed present *)
   if all_valid then
   fold_steps ops obs (List.length ids) (fun i o prev ob ->
-    if ob.held > ob.cnt then fail "held-exceeds-counter" (Printf.sprintf "step=%d held=%d counter=%d" i ob.held ob.cnt);
-    if ob.recs <> "none" && ob.held > rec_int ob then fail "held-exceeds-size-record" (Printf.sprintf "step=%d held=%d rec=%s" i ob.held ob.recs);
-    if ob.recs <> "none" && rec_int ob <> ob.cnt then fail "size-record-differs-from-counter" (Printf.sprintf "step=%d rec=%s counter=%d" i ob.recs ob.cnt);
-    if small && ob.held > cap then fail "held-exceeds-capacity-with-small-items" (Printf.sprintf "step=%d held=%d" i ob.held);
-    if small && ob.cnt > cap then fail "counter-exceeds-capacity-with-small-items" (Printf.sprintf "step=%d counter=%d" i ob.cnt);
+    if ob.held >: ob.cnt then fail "held-exceeds-counter" (Printf.sprintf "step=%d held=%s counter=%s" i (sd ob.held) (sd ob.cnt));
+    if ob.recs <> "none" && not (has_rec ob) then fail "size-record-is-not-a-counter" (Printf.sprintf "step=%d rec=%s" i ob.recs);
+    if has_rec ob && ob.held >: rec_n ob then fail "held-exceeds-size-record" (Printf.sprintf "step=%d held=%s rec=%s" i (sd ob.held) ob.recs);
+    if has_rec ob && not (N.eqb (rec_n ob) ob.cnt) then fail "size-record-differs-from-counter" (Printf.sprintf "step=%d rec=%s counter=%s" i ob.recs (sd ob.cnt));
+    if small && ob.held >: cap then fail "held-exceeds-capacity-with-small-items" (Printf.sprintf "step=%d held=%s" i (sd ob.held));
+    if small && ob.cnt >: cap then fail "counter-exceeds-capacity-with-small-items" (Printf.sprintf "step=%d counter=%s" i (sd ob.cnt));
     let present ob j = List.nth ob.gets j <> "nf" in
     let check_prune trigger held_in what =
       (* dropped = present before (or just written) and absent now; kept = present now *)
@@ -187,8 +223,9 @@ let c05_monitors capmb node ops (obs : obs list) : string list =
       if !dropped <> [] && not trigger then fail (what ^ "-item-lost-without-prune") (Printf.sprintf "step=%d" i);
       List.iter (fun d -> List.iter (fun k -> if bcmp k d <> Lt then fail (what ^ "-prune-not-farthest-first") (Printf.sprintf "step=%d dropped=%s kept=%s" i (Util.hex_of_bytes (ub d)) (Util.hex_of_bytes (ub k)))) !kept) !dropped;
       if trigger then begin
-        let freed = held_in - ob.held in
-        if freed < expect_ && ob.held <> 0 then fail (what ^ "-prune-freed-too-little") (Printf.sprintf "step=%d freed=%d held=%d" i freed ob.held)
+        (* freed = held_in - held_now;  freed < expect  <=>  held_in < held_now + expect *)
+        if held_in <: (ob.held +: expect_) && not (N.eqb ob.held zero)
+        then fail (what ^ "-prune-freed-too-little") (Printf.sprintf "step=%d held=%s->%s" i (sd held_in) (sd ob.held))
       end in
     (match o with
      | P (id, x) when ob.res <> "refused" ->
@@ -197,10 +234,10 @@ let c05_monitors capmb node ops (obs : obs list) : string list =
        let j = let rec find k = function [] -> -1 | y :: t -> if y = id then k else find (k + 1) t in find 0 ids in
        let old = if present prev j then old else 0 in
        Hashtbl.replace sizes id len;
-       check_prune (prev.cnt + len > cap) (prev.held - old + len) "put"
+       check_prune ((prev.cnt +: n_ len) >: cap) (N.sub (prev.held +: n_ len) (n_ old)) "put"
      | P _ -> ()
      | G _ -> check_prune false prev.held "get"
-     | R | K _ -> check_prune (rec_int prev > cap) prev.held "reopen"));
+     | R | K _ -> check_prune (rec_n prev >: cap) prev.held "reopen"));
   List.rev !fails
 
 (* ---------------- C06 monitors *)
@@ -225,7 +262,7 @@ let c06_raw node ops (obs : obs list) : string list =
 (* Attribution to the known finding (DESIGN.md section 4): the failure is the little-endian decode only if the
    implementation agrees with the faithful (le) model on this very history AND the same history run under the
    repaired instance (be) satisfies the monitors. Anything else keeps its generic key. *)
-let attribute_le capmb node ops impl fails known_key =
+let attribute_le (capmb : n) node ops impl fails known_key =
   if fails = [] then [] else
   let m_le = model_string (model_run le_dec capmb node ops) impl in
   let be_steps, be_stop = model_run be_dec capmb node ops in
@@ -236,11 +273,10 @@ let attribute_le capmb node ops impl fails known_key =
   else fails
 
 (* ---------------- C17 monitors (clean reopen steps of a history) *)
-let c17_monitors capmb node ops (obs : obs list) impl : string list =
+let c17_monitors (capmb : n) node ops (obs : obs list) impl : string list =
   let ids = pool ops in
-  let cap = capmb * 1000000 in
-  let ppm = int_n k_contentDeletionPPM in
-  let expect_ = capmb * ppm and thr_ = capmb * (1000000 - ppm) in
+  let cap = capmb *: k_bytesPerMB in
+  let expect_ = capmb *: k_contentDeletionPPM and thr_ = capmb *: (N.sub k_bytesPerMB k_contentDeletionPPM) in
   let fails = ref [] in
   let fail k d = fails := (k ^ " " ^ d) :: !fails in
   let putvals = Hashtbl.create 16 in
@@ -254,24 +290,26 @@ let c17_monitors capmb node ops (obs : obs list) impl : string list =
         let g = List.nth ob.gets j in
         if g <> "nf" && not (List.mem g (Hashtbl.find_all putvals id))
         then fail "reopen-returns-bytes-never-put" (Printf.sprintf "step=%d id#%d got=%s" i j g)) ids;
-      if ob.recs <> "none" && rec_int ob < ob.held then fail "reopen-size-record-below-held" (Printf.sprintf "step=%d rec=%s held=%d" i ob.recs ob.held);
-      if ob.recs = "none" && ob.held > 0 then fail "reopen-size-record-missing" (Printf.sprintf "step=%d held=%d" i ob.held);
-      let size = if prev.recs = "none" then 0 else rec_int prev in
-      if size > cap && prev.held - ob.held < expect_ && ob.held <> 0
-      then fail "reopen-over-capacity-not-pruned" (Printf.sprintf "step=%d size=%d held=%d->%d" i size prev.held ob.held);
+      if ob.recs <> "none" && not (has_rec ob) then fail "reopen-size-record-is-not-a-counter" (Printf.sprintf "step=%d rec=%s" i ob.recs);
+      if has_rec ob && rec_n ob <: ob.held then fail "reopen-size-record-below-held" (Printf.sprintf "step=%d rec=%s held=%s" i ob.recs (sd ob.held));
+      if ob.recs = "none" && ob.held >: zero then fail "reopen-size-record-missing" (Printf.sprintf "step=%d held=%s" i (sd ob.held));
+      let size = rec_n prev in
+      (* freed = prev.held - held_now < expect  <=>  prev.held < held_now + expect *)
+      if size >: cap && prev.held <: (ob.held +: expect_) && not (N.eqb ob.held zero)
+      then fail "reopen-over-capacity-not-pruned" (Printf.sprintf "step=%d size=%s held=%s->%s" i (sd size) (sd prev.held) (sd ob.held));
       (* radius rule *)
       let present = List.filter (fun id -> List.nth ob.gets (let rec find k = function [] -> -1 | y :: t -> if y = id then k else find (k + 1) t in find 0 ids) <> "nf") ids in
       let keys = List.map (key_of node) present in
       let far = List.fold_left (fun acc k -> match acc with None -> Some k | Some a -> if bcmp a k = Lt then Some k else acc) None keys in
-      if size > thr_ then begin
+      if size >: thr_ then begin
         match far with
         | None ->
-          if ob.rads = "0" then fail "reopen-radius-zero-on-empty-over-counted-store" (Printf.sprintf "step=%d size=%d" i size)
+          if ob.rads = "0" then fail "reopen-radius-zero-on-empty-over-counted-store" (Printf.sprintf "step=%d size=%s" i (sd size))
           else if ob.rads <> hexn mAXD then fail "reopen-radius-on-empty-store-not-max" (Printf.sprintf "step=%d radius=%s" i ob.rads)
         | Some k ->
           if hexn (be_dec k) <> ob.rads then
             le_fail := Printf.sprintf "reopen-radius-not-farthest-item step=%d radius=%s farthest=%s" i ob.rads (Util.hex_of_bytes (ub k)) :: !le_fail
-      end else if ob.rads <> hexn mAXD then fail "reopen-radius-not-max-below-95-percent" (Printf.sprintf "step=%d size=%d radius=%s" i size ob.rads)
+      end else if ob.rads <> hexn mAXD then fail "reopen-radius-not-max-below-95-percent" (Printf.sprintf "step=%d size=%s radius=%s" i (sd size) ob.rads)
     | _ -> ());
   (* the farthest-item radius is read little-endian by the code: attribute exactly as in C06 *)
   let le_fails =
@@ -287,10 +325,15 @@ let c17_monitors capmb node ops (obs : obs list) impl : string list =
 let handle fields impl : string option * string list =
   match fields with
   | [kind; capmb; node; opss] when String.length kind = 3 && kind.[0] = 'h' ->
-    let capmb = int_of_string capmb and node = Util.bytes_of_hex node and ops = parse_ops opss in
+    let capmb = (match n_of_dec_opt capmb with Some c -> c | None -> zero) and node = Util.bytes_of_hex node and ops = parse_ops opss in
     let m = model_string (model_run le_dec capmb node ops) impl in
     let mons = match parse_obs impl with
-      | None -> [kind ^ "-history-panics-or-fails " ^ (if String.length impl > 120 then String.sub impl 0 120 else impl)]
+      | None ->
+        (* Outside the quantifier (the node id itself or ids of another length are used) the code can panic - e.g.
+           NewStorage on a size record shorter than 8 bytes - and the faithful model says so at the same step: that is
+           not a violation of this property.  With valid ids only, or when the model does not predict it, it is. *)
+        if m = impl && not (List.for_all (valid_id node) (pool ops)) then []
+        else [kind ^ "-history-panics-fails-or-unparsable " ^ (if String.length impl > 120 then String.sub impl 0 120 else impl)]
       | Some obs when List.length obs <> List.length ops -> ["history-observation-count"]
       | Some obs ->
         (match kind with
@@ -301,12 +344,11 @@ let handle fields impl : string option * string list =
          | _ -> []) in
     (Some m, mons)
   | ["crash"; capmb; node; opss; k] ->
-    let capmb = int_of_string capmb and node = Util.bytes_of_hex node and ops = parse_ops opss and k = int_of_string k in
+    let capmb = (match n_of_dec_opt capmb with Some c -> c | None -> zero) and node = Util.bytes_of_hex node and ops = parse_ops opss and k = int_of_string k in
     let ids = pool ops in
-    let rec take n l = if n = 0 then [] else match l with [] -> [] | x :: t -> x :: take (n - 1) t in
-    let pre = take k ops in
+    let pre = take_l k ops in
     (* the model state when the process dies *)
-    let y = ref (init (n_ capmb) k_contentDeletionPPM (b node)) in
+    let y = ref (init capmb k_contentDeletionPPM (b node)) in
     List.iter (fun o -> match o with
       | P (id, x) -> (match step vlen vhead8 le_dec !y (OPut (b id, x)) with Ok y' -> y := y' | _ -> ())
       | _ -> ()) pre;
@@ -326,8 +368,9 @@ let handle fields impl : string option * string list =
         List.iteri (fun j id ->
           let g = List.nth ob.gets j in
           if g <> "nf" && not (List.mem g (Hashtbl.find_all putvals id)) then f := Printf.sprintf "crash-reopen-returns-bytes-never-put id#%d got=%s" j g :: !f) ids;
-        if ob.recs = "none" && ob.held > 0 then f := Printf.sprintf "crash-reopen-size-record-missing held=%d" ob.held :: !f;
-        if ob.recs <> "none" && rec_int ob < ob.held then f := Printf.sprintf "crash-reopen-size-record-below-held rec=%s held=%d" ob.recs ob.held :: !f;
+        if ob.recs = "none" && ob.held >: zero then f := Printf.sprintf "crash-reopen-size-record-missing held=%s" (sd ob.held) :: !f;
+        if ob.recs <> "none" && not (has_rec ob) then f := Printf.sprintf "crash-reopen-size-record-is-not-a-counter rec=%s" ob.recs :: !f;
+        if has_rec ob && rec_n ob <: ob.held then f := Printf.sprintf "crash-reopen-size-record-below-held rec=%s held=%s" ob.recs (sd ob.held) :: !f;
         !f
       | Some _ -> ["crash-observation-shape"] in
     (Some m, mons)
@@ -337,22 +380,28 @@ let handle fields impl : string option * string list =
     let impl' = if starts impl "panic" then "panic" else impl in
     ((if m = impl' then None else Some m), [])
   | ["thr"; capmb] ->
-    let y : v sys = init (n_ (int_of_string capmb)) k_contentDeletionPPM (b []) in
-    (Some (Printf.sprintf "ok %d %d" (int_n (expect y.mem)) (int_n (thr y.mem))), [])
+    (match n_of_dec_opt capmb with
+     | None -> (Some "driver: capacity is not a decimal number", [])
+     | Some c ->
+       let y : v sys = init c k_contentDeletionPPM (b []) in
+       (Some (Printf.sprintf "ok %s %s" (dec_of_n (expect y.mem)) (dec_of_n (thr y.mem))), []))
   | ["retain"; _; _; _; _] ->
     (* memory lifetime of the bytes handed out by Get: outside the Gallina model, monitor only *)
     let changed = try Scanf.sscanf impl "ok checked=%d changed=%d" (fun _ c -> c) with _ -> -1 in
     (None, if changed = 0 then [] else ["get-returned-slice-changed-later " ^ impl])
   | ["conc"; capmb; _; _; vl; _] ->
-    let cap = int_of_string capmb * 1000000 in
-    let small = 32 + int_of_string vl <= int_of_string capmb * int_n k_contentDeletionPPM in
-    (try Scanf.sscanf impl "ok held=%d rec=%d cnt=%d cap=%d errs=%d" (fun held rc cnt _ errs ->
-      (None,
-       (if held > rc then [Printf.sprintf "concurrent-puts-held-exceeds-size-record held=%d rec=%d" held rc] else []) @
-       (if held > cnt then [Printf.sprintf "concurrent-puts-held-exceeds-counter held=%d counter=%d" held cnt] else []) @
-       (if small && held > cap then [Printf.sprintf "concurrent-puts-held-exceeds-capacity held=%d cap=%d" held cap] else []) @
-       (if errs > 0 then [Printf.sprintf "concurrent-puts-prune-error errs=%d" errs] else [])))
-     with _ -> (None, ["concurrent-puts-run-failed " ^ impl]))
+    let field name =            (* "name=<decimal>" in the observation, as an arbitrary-precision number *)
+      List.fold_left (fun acc w -> match split '=' w with [k; x] when k = name -> n_of_dec_opt x | _ -> acc) None (split ' ' impl) in
+    (match n_of_dec_opt capmb, n_of_dec_opt vl, field "held", field "rec", field "cnt", field "errs" with
+     | Some cm, Some vl, Some held, Some rc, Some cnt, Some errs when starts impl "ok " ->
+       let cap = cm *: k_bytesPerMB in
+       let small = (n_ 32 +: vl) <=: (cm *: k_contentDeletionPPM) in
+       (None,
+        (if held >: rc then [Printf.sprintf "concurrent-puts-held-exceeds-size-record held=%s rec=%s" (sd held) (sd rc)] else []) @
+        (if held >: cnt then [Printf.sprintf "concurrent-puts-held-exceeds-counter held=%s counter=%s" (sd held) (sd cnt)] else []) @
+        (if small && held >: cap then [Printf.sprintf "concurrent-puts-held-exceeds-capacity held=%s cap=%s" (sd held) (sd cap)] else []) @
+        (if errs >: zero then [Printf.sprintf "concurrent-puts-prune-error errs=%s" (sd errs)] else []))
+     | _ -> (None, ["concurrent-puts-run-failed-or-unparsable " ^ impl]))
   | ["inr"; node; radius; cid] ->
     let node = b (Util.bytes_of_hex node) and cid = b (Util.bytes_of_hex cid) and radius = n_hex radius in
     let code = match in_range_code node radius cid with Ok true -> "ok true" | Ok false -> "ok false" | Err _ -> "err" | Panic -> "panic" in
